@@ -21,6 +21,7 @@ namespace vh {
 	template <class TReader>
 	std::string ScopeStateJson(const BitSerializer::MsgPack::Detail::CMsgPackReadObjectScope<TReader>& s) { return BitSerializerVerifAccess::State(s); }
 }
+#define VH_ARRAY_KEYS 1
 #include "vh_script.h"
 
 int main(int argc, char** argv)
